@@ -233,15 +233,20 @@ theorem C01_delivered_parts (H : Http) (R : HttpRoundTrip H) (role : Role) (m : 
     | response m status hm h1 h2 => cases hp; exact ⟨hm, rfl⟩
 
 /-- the crate's own values satisfy `PseudoBack` for a request: from the round-trip laws, when the
-    URI parts are values the crate's parsers produced (`∃ w, parse w = some v`) -/
+    URI parts are values the crate's parsers produced (`∃ w, parse w = some v`) and — the caller's part
+    since the D-12g fix: the crate's `Uri` accepts more than RFC 3986 — the target's scheme is an
+    RFC 3986 scheme and its authority has at most one `@` and a numeric port (`hss`, `has`; that a
+    `PathAndQuery` holds no `#` is a law of the crate, `HttpRoundTrip.path_print_no_fragment`) -/
 theorem C01_pseudo_back_of_laws (H : Http) (L : HttpLaws H) (R : HttpRoundTrip H) (method : List Nat)
     (uri : UriParts) (ext : Option (List Nat)) (hm : validMethod method = true)
     (hs : ∀ s, (Pseudo.request method uri ext).scheme = some s → ∃ w, H.parseScheme w = some s)
     (ha : ∀ a, uri.authority = some a → ∃ w, H.parseAuthority w = some a)
     (hp : ∀ x, (Pseudo.request method uri ext).path = some x → ∃ w, H.parsePath w = some x)
-    (hx : ∀ x, (Pseudo.request method uri ext).protocol = some x → parseProtocol x = some x) :
+    (hx : ∀ x, (Pseudo.request method uri ext).protocol = some x → parseProtocol x = some x)
+    (hss : ∀ s, uri.scheme = some s → schemeSyntax s = true)
+    (has : ∀ a, uri.authority = some a → authoritySyntax a = true) :
     PseudoBack H (Pseudo.request method uri ext) :=
-  pseudoBack_of_laws H L R method uri ext hm hs ha hp hx
+  pseudoBack_of_laws H L R method uri ext hm hs ha hp hx hss has
 
 /-- **The head survives the trip — from the laws of the `http` crate, not as a hypothesis.**  Let the
     head of `m` be made of values of the crate (`HeadValues`: a token as method; scheme, authority,
@@ -679,7 +684,8 @@ theorem headOk₁ : HeadOk toy .server m₁ out₁ := by
   refine HeadOk.request m₁ GET ⟨some sHttps, some aCom, some slash⟩ none _ rfl ?_ (by decide) (by decide)
   exact ⟨(by intro m h; cases h; decide), (by intro s h; cases h; decide),
     (by intro a h; cases h; decide), (by intro x h; cases h; decide), (by intro st h; cases h),
-    (by intro x h; cases h)⟩
+    (by intro x h; cases h), (by intro s h; cases h; decide), (by intro a h; cases h; decide),
+    (by intro x h; cases h; decide)⟩
 
 /-- the theorem applied: every script carrying `wire m₁` — here 5-byte chunks — delivers `want₁` -/
 example : deliver toy .server 273 (chunked 5 (wire m₁)) = want₁ := by
@@ -701,6 +707,12 @@ theorem toy_rt : HttpRoundTrip toy where
     simp only [toy] at h ⊢
     split at h
     · rename_i hc; cases h; rw [if_pos hc]
+    · cases h
+  path_print_no_fragment := by
+    intro w v h
+    simp only [toy] at h
+    split at h
+    · rename_i hc; cases h; simpa [pathSyntax] using hc.2
     · cases h
   uri_parts := by
     intro s a p u h
@@ -727,6 +739,7 @@ theorem values₁ : HeadValues toy .server m₁ :=
   HeadValues.request m₁ GET ⟨some sHttps, some aCom, some slash⟩ none rfl (by decide)
     (by intro s h; cases h; exact ⟨sHttps, by decide⟩) (by intro a h; cases h; exact ⟨aCom, by decide⟩)
     (by intro x h; cases h; exact ⟨slash, by decide⟩) (by intro x h; cases h) (by intro h; cases h) (by decide)
+    (by intro s h; cases h <;> decide) (by intro a h; cases h <;> decide)
 
 /-- `HeadOk` for `m₁` is a consequence of the laws; what arrives is `out₁` -/
 example : HeadOk toy .server m₁ out₁ := C01_head_survives toy toy_laws toy_rt .server m₁ h₁ wf₁.header values₁
@@ -751,6 +764,7 @@ example : HeadValues toy .server m₅ :=
   HeadValues.request m₅ mCONNECT ⟨none, some aPort, none⟩ none rfl (by decide)
     (by intro s h; cases h) (by intro a h; cases h; exact ⟨aPort, by decide⟩)
     (by intro x h; cases h) (by intro x h; cases h) (by intro h; cases h) (by decide)
+    (by intro s h; cases h <;> decide) (by intro a h; cases h <;> decide)
 
 /-! ### split() -/
 
@@ -904,6 +918,7 @@ theorem values₆ : HeadValues toy .server m₆ :=
   HeadValues.request m₆ GET ⟨some sHttps, some aCom, some slash⟩ none rfl (by decide)
     (by intro s h; cases h; exact ⟨sHttps, by decide⟩) (by intro a h; cases h; exact ⟨aCom, by decide⟩)
     (by intro x h; cases h; exact ⟨slash, by decide⟩) (by intro x h; cases h) (by intro h; cases h) (by decide)
+    (by intro s h; cases h <;> decide) (by intro a h; cases h <;> decide)
 
 theorem ok₀ : x₀.Ok toy .server 1000 100 st₀ (sndOf evs₀) (rcvOf evs₀) where
   wf := wf₁
@@ -934,6 +949,7 @@ theorem ok₄ : x₄.Ok toy .server 1000 100 st₀ (sndOf evs₀) (rcvOf evs₀)
   values := HeadValues.request m₆ GET ⟨some sHttps, some aCom, some slash⟩ none rfl (by decide)
     (by intro s h; cases h; exact ⟨sHttps, by decide⟩) (by intro a h; cases h; exact ⟨aCom, by decide⟩)
     (by intro x h; cases h; exact ⟨slash, by decide⟩) (by intro x h; cases h) (by intro h; cases h) (by decide)
+    (by intro s h; cases h <;> decide) (by intro a h; cases h <;> decide)
   draw := by decide
   sid := by decide
   fresh := by decide +kernel
